@@ -760,6 +760,17 @@ func (c *Ctx) Concat(hi, lo *Term) *Term {
 	if hi.IsConst() && lo.IsConst() {
 		return c.BV(hi.C<<lo.W|lo.C, w)
 	}
+	// adjacent slices of one term: x[h1:l1] ++ x[h2:l2] with l1 == h2+1  ==>  x[h1:l2]
+	if hi.Op == OExtract && lo.Op == OExtract && hi.Args[0] == lo.Args[0] {
+		h1, l1 := int(hi.C>>8), int(hi.C&0xff)
+		h2, l2 := int(lo.C>>8), int(lo.C&0xff)
+		if l1 == h2+1 {
+			return c.Extract(hi.Args[0], h1, l2)
+		}
+	}
+	if hi.Op == OExtract && lo == hi.Args[0] && int(hi.C&0xff) == int(lo.W) {
+		// x[h:w] ++ x  where x has width w: is x'[h:0] only if x is itself a low slice; skip
+	}
 	return c.mk(&Term{Op: OConcat, S: SBV, W: uint16(w), Args: []*Term{hi, lo}})
 }
 
